@@ -213,6 +213,28 @@ func installNatives(it *Interp) {
 		}
 		panic(undecided{"cmp.Less on " + describe(args[0])})
 	}
+	n["strings.NewReplacer"] = func(it *Interp, args []Value) []Value {
+		var pairs []string
+		for _, a := range expandVariadic(args) {
+			s, ok := a.(string)
+			if !ok {
+				panic(undecided{"strings.NewReplacer on " + describe(a)})
+			}
+			pairs = append(pairs, s)
+		}
+		if len(pairs)%2 != 0 {
+			panic(goPanic{msg: "strings.NewReplacer: odd argument count"})
+		}
+		return []Value{&Ext{"replacer\x00" + strings.Join(pairs, "\x00")}}
+	}
+	n["(*strings.Replacer).Replace"] = func(it *Interp, args []Value) []Value {
+		e, ok := args[0].(*Ext)
+		s, ok2 := args[1].(string)
+		if !ok || !ok2 || !strings.HasPrefix(e.desc, "replacer\x00") {
+			panic(undecided{"(*strings.Replacer).Replace on " + describe(args[0])})
+		}
+		return []Value{strings.NewReplacer(strings.Split(e.desc, "\x00")[1:]...).Replace(s)}
+	}
 	n["errors.New"] = func(it *Interp, args []Value) []Value {
 		m, _ := args[0].(string)
 		return []Value{&Ext{"error: " + m}}
@@ -664,25 +686,25 @@ func (m *model) copyNode(n *Obj) *Obj {
 	return res[0].(*Obj)
 }
 
-func (m *model) char(c string) *Obj        { return m.node("TypeCharacter", c) }
-func (m *model) str(s string) *Obj         { return m.node("TypeString", s) }
-func (m *model) dot() *Obj                 { return m.node("TypeDot", ".") }
-func (m *model) nilNode() *Obj             { return m.node("TypeNil", "<nil>") }
+func (m *model) char(c string) *Obj         { return m.node("TypeCharacter", c) }
+func (m *model) str(s string) *Obj          { return m.node("TypeString", s) }
+func (m *model) dot() *Obj                  { return m.node("TypeDot", ".") }
+func (m *model) nilNode() *Obj              { return m.node("TypeNil", "<nil>") }
 func (m *model) predicate(code string) *Obj { return m.node("TypePredicate", code) }
-func (m *model) state(code string) *Obj    { return m.node("TypeStateChange", code) }
+func (m *model) state(code string) *Obj     { return m.node("TypeStateChange", code) }
 func (m *model) rng(lo, hi string) *Obj {
 	return m.node("TypeRange", "", m.char(lo), m.char(hi))
 }
-func (m *model) seq(k ...*Obj) *Obj     { return m.node("TypeSequence", "", k...) }
-func (m *model) alt(k ...*Obj) *Obj     { return m.node("TypeAlternate", "", k...) }
-func (m *model) query(k *Obj) *Obj      { return m.node("TypeQuery", "", k) }
-func (m *model) star(k *Obj) *Obj       { return m.node("TypeStar", "", k) }
-func (m *model) plus(k *Obj) *Obj       { return m.node("TypePlus", "", k) }
-func (m *model) peekFor(k *Obj) *Obj    { return m.node("TypePeekFor", "", k) }
-func (m *model) peekNot(k *Obj) *Obj    { return m.node("TypePeekNot", "", k) }
-func (m *model) name(s string) *Obj     { return m.node("TypeName", s) }
-func (m *model) commentNode() *Obj      { return m.node("TypeComment", "c") }
-func (m *model) commit() *Obj           { return m.node("TypeCommit", "") }
+func (m *model) seq(k ...*Obj) *Obj  { return m.node("TypeSequence", "", k...) }
+func (m *model) alt(k ...*Obj) *Obj  { return m.node("TypeAlternate", "", k...) }
+func (m *model) query(k *Obj) *Obj   { return m.node("TypeQuery", "", k) }
+func (m *model) star(k *Obj) *Obj    { return m.node("TypeStar", "", k) }
+func (m *model) plus(k *Obj) *Obj    { return m.node("TypePlus", "", k) }
+func (m *model) peekFor(k *Obj) *Obj { return m.node("TypePeekFor", "", k) }
+func (m *model) peekNot(k *Obj) *Obj { return m.node("TypePeekNot", "", k) }
+func (m *model) name(s string) *Obj  { return m.node("TypeName", s) }
+func (m *model) commentNode() *Obj   { return m.node("TypeComment", "c") }
+func (m *model) commit() *Obj        { return m.node("TypeCommit", "") }
 
 // oinfo finds the contract of an opaque node; copies made by the generator
 // (node.Copy) keep the marker type, so lookup is by type value.
@@ -876,17 +898,17 @@ type region struct {
 	compileLit ast.Node // the recursive emitter: a closure of the region, or a method of the writer object
 	printRule  *ast.FuncLit
 	printVar   types.Object // _print
-	jumpLit    ast.Node // printJump: a closure of the region, or a method of the writer
+	jumpLit    ast.Node     // printJump: a closure of the region, or a method of the writer
 	jumpVar    types.Object
 	// when the emitter prints through an object with methods instead of a local print closure:
 	// printVar is that object's variable, printMethod / jumpMethod its methods
 	printMethod *ast.FuncDecl
 	jumpMethod  *ast.FuncDecl
 	objVar      types.Object // the local holding the emitter object when the jump helper / emitter are its methods
-	compileVar types.Object
-	problems   []string
-	full       []ast.Stmt // Compile from its first statement to the end of the emission region
-	tail       []ast.Stmt // what follows the emission: -strict handling, formatting, writing
+	compileVar  types.Object
+	problems    []string
+	full        []ast.Stmt // Compile from its first statement to the end of the emission region
+	tail        []ast.Stmt // what follows the emission: -strict handling, formatting, writing
 }
 
 func findRegion(r *Repo) *region {
@@ -1621,6 +1643,14 @@ func (m *model) tmplConfigFromTree(t *Obj, boolVars []string) (tmplConfig, error
 	if s, ok := t.field("RuleNames").v.(*SliceV); ok && s != nil {
 		for _, e := range s.elems {
 			cfg.RuleNames = append(cfg.RuleNames, e.(*Obj).field("string").v.(string))
+		}
+	}
+	if c := t.field("Generator"); c != nil {
+		cfg.Generator, _ = c.v.(string)
+	}
+	if c := t.field("RulesCount"); c != nil {
+		if n, ok := c.v.(int64); ok {
+			cfg.RulesCount = int(n)
 		}
 	}
 	if s, ok := t.field("Actions").v.(*SliceV); ok && s != nil {
